@@ -8,7 +8,17 @@ import z3
 from .harness import *
 from .summaries import DecSort
 
-POOL = ['0', '1', '-1', '2', '0.5', '-0.5', '79228162514264337593543950335', '-79228162514264337593543950335', '1000', '0.0000000000000000000000000001', '3', '-2.5', '150']
+POOL = ['0', '1', '-1', '2', '0.5', '-0.5', '79228162514264337593543950335', '-79228162514264337593543950335', '1000', '0.0000000000000000000000000001', '3', '-2.5', '150',
+        '7000000000000000000000000000.5', '5000000000000000000000000000.0', '2.9999999999999999999999999999', '10000000000000000000000000000', '0.3', '0.1', '1.10']
+NATIVE_OPS = {'Add': 'add', 'Subtract': 'sub', 'Multiply': 'mul', 'Divide': 'div', 'Modulo': 'rem', 'Negative': 'neg'}
+
+
+def dec_value(payload):
+    """the rational value of a runner decimal `dm<coefficient>e<scale>`"""
+    import re, fractions
+    m = re.match(r'^dm(-?\d+)e(\d+)$', payload.strip())
+    if not m: return payload
+    return fractions.Fraction(int(m.group(1)), 10 ** int(m.group(2)))
 
 
 class DecLeaf(Leaf):
@@ -42,14 +52,48 @@ class DecimalArm(EvalArm):
             # abstract decimals have no model value: search the pool for a witness of the outcome under confirmation
             want = ob.want_status
             found = None
+            ob.witness_deviates = None
             for combo in itertools.product(POOL, repeat=len([l for l in leaves if isinstance(l, DecLeaf)])):
                 sx = ob.sexpr_concrete(combo)
                 stt, payload, us = runner.request('AST', 'decimal', sx, timeout=3.0)
                 if found is None: found = (sx, stt, payload, us)
+                if ob.differential and stt in ('OK', 'ERR'):
+                    # a witness must itself depart from the rust_decimal operations of the same meaning, computed natively on the same operands
+                    refn = ob.native_reference(runner, combo)
+                    if refn is None: continue
+                    if (stt, dec_value(payload) if stt == 'OK' else '') == (refn[0], dec_value(refn[1]) if refn[0] == 'OK' else ''): continue      # same rational value (the scale may differ)
+                    if want is None or stt == want:
+                        ob.witness_deviates = True
+                        return sx, stt, payload + ('' if stt == 'OK' else ' (rust_decimal on the same operands: %s)' % ' '.join(refn)), us
+                    continue
                 if want is None or stt == want: return sx, stt, payload, us
             return found[0], 'NOWITNESS', found[1] + ' ' + found[2], 0
         self.want_status = None
         return entry, [tree], leaves, native_of
+
+    differential = False      # C07: violations are confirmed differentially against rust_decimal called directly
+
+    def native_reference(self, runner, vals):
+        """('OK', payload) | ('ERR', '') of the shape computed with rust_decimal's own operators on the pool values, or None when the shape has other nodes"""
+        it = iter(vals)
+
+        def rec(shape):
+            if isinstance(shape, DecLeaf): return 'd' + next(it)
+            if isinstance(shape, Leaf): return 'd' + str(shape.var)
+            if shape[0] not in NATIVE_OPS or (len(shape) == 2 and isinstance(shape[1], list)): raise KeyError(shape[0])
+            args = []
+            for c in shape[1:]:
+                a = rec(c)
+                if a is None: return None
+                args.append(a)
+            stt, payload, _ = runner.request('DEC', NATIVE_OPS[shape[0]], *args)
+            if stt != 'OK': return None          # panic / None: the operation is not defined on these operands
+            return payload
+        try:
+            r = rec(self.shape)
+        except KeyError:
+            return None
+        return ('ERR', '') if r is None else ('OK', r)
 
     def sexpr_concrete(self, vals):
         it = iter(vals)
